@@ -149,8 +149,87 @@ def random_case(draw):
     return {"graph": g}
 
 
+# ---- plain (non-call) tuples inside legacy task arguments ---------------------------------------------------------
+# The rich generator keeps references out of legacy non-call tuples (DESIGN 8.1: the legacy dependency finder and the
+# converter disagree about them).  What the *converter* does with them is nevertheless part of "converting and executing":
+# it rebuilds a tuple elementwise whenever it contains a reference or a nested call, wherever in the tuple that is.  Checked
+# here against two oracles that do not depend on the grey zone: no graph-node object may leak into a computed value, and
+# the value must not depend on WHERE in the tuple the reference stands (every rotation of the tuple gives the rotated value).
+
+PT_ATOMS = ["5", "'x'", "ref-a", "ref-b", "call", "list", "tup"]
+
+
+def _pt_inc(x):
+    return x + 1
+
+
+def _pt_ident(*args):
+    return args
+
+
+def _pt_build(codes):
+    atoms = {"5": 5, "'x'": "x", "ref-a": "a", "ref-b": ("b", 0), "call": (_pt_inc, "a"), "list": ["a", 7], "tup": (6, "a")}
+    vals = {"5": 5, "'x'": "x", "ref-a": 1, "ref-b": 2, "call": 2, "list": [1, 7], "tup": (6, 1)}
+    return tuple(atoms[c] for c in codes), tuple(vals[c] for c in codes)
+
+
+def _has_node(v):
+    from dask._task_spec import GraphNode
+
+    if isinstance(v, GraphNode):
+        return True
+    if isinstance(v, (list, tuple, set)):
+        return any(_has_node(x) for x in v)
+    if isinstance(v, dict):
+        return any(_has_node(x) for x in v.values()) or any(_has_node(x) for x in v)
+    return False
+
+
+def check_plain_tuple(case):
+    import dask
+    from dask._task_spec import convert_legacy_graph
+
+    codes = case["codes"]
+    has_ref = any(c not in ("5", "'x'") for c in codes)
+    results = []
+    for r in range(len(codes)):
+        rot = codes[r:] + codes[:r]
+        arg, want = _pt_build(rot)
+        dsk = {"a": 1, ("b", 0): (_pt_inc, "a"), "c": (_pt_ident, arg, 9)}
+        sig = dict(legacy_plain_tuple=True, length=len(codes))
+        with impl("convert_legacy_graph + get", **sig):
+            conv = convert_legacy_graph(dsk)
+            got = dask.get(dsk, "c")
+        ensure(not _has_node(got), f"legacy task (f, {arg!r}, 9): a graph-node object leaked into the computed value {short(got)}", "graph-node-in-value", **sig)
+        deps = set(conv["c"].dependencies)
+        need = ({"a"} if any(c in ("ref-a", "call", "list", "tup") for c in rot) else set()) | ({("b", 0)} if "ref-b" in rot else set())
+        ensure(deps == need, f"legacy task (f, {arg!r}, 9): converted node reports dependencies {sorted(map(str, deps))}, the argument references {sorted(map(str, need))}", "dependencies-mismatch", **sig)
+        results.append((rot, arg, got, want))
+    # rotation invariance: got[0] (the tuple argument as the function saw it) rotated back must not depend on r
+    base = results[0][2][0]
+    for r, (rot, arg, got, want) in enumerate(results):
+        t = got[0]
+        back = tuple(t[len(codes) - r :]) + tuple(t[: len(codes) - r]) if r else tuple(t)
+        ensure(tuple(back) == tuple(base), f"legacy task (f, {arg!r}, 9) passes {short(t)} to f; the same tuple rotated by {r} passes {short(results[0][2][0])}: the value depends on where the reference stands", "tuple-position-dependent", **dict(sig))
+        if has_ref:
+            ensure(tuple(t) == tuple(want), f"legacy task (f, {arg!r}, 9) passes {short(t)} to f, elementwise evaluation gives {short(want)}", "plain-tuple-value", **sig)
+
+
+def plain_tuple_cases(tier):
+    import itertools
+
+    for n in range(1, 5 if tier == "quick" else 6):
+        for codes in itertools.product(PT_ATOMS, repeat=n):
+            # rotations are checked inside one case: enumerate one representative per rotation class
+            if list(codes) == min(list(codes[r:] + codes[:r]) for r in range(n)):
+                yield {"codes": list(codes)}
+
+
 SUBCHECKS = [
     Sub("enum", check, kind="enum", cases=enum_cases, nontrivial=lambda c: len(c["graph"]["nodes"]) >= 3, classes=classes, exhaustive=True, doc="all small DAGs in both encodings"),
+    Sub("plain-tuples", check_plain_tuple, kind="enum", cases=plain_tuple_cases, nontrivial=lambda c: len(c["codes"]) >= 3 and any(x not in ("5", "'x'") for x in c["codes"][2:]),
+        classes=lambda c: [f"len-{len(c['codes'])}"] + sorted(set(c["codes"])), exhaustive=True,
+        doc="legacy task arguments that are plain tuples of length 1-4 (thorough 5) over {literal int, non-key string, key, tuple key, nested call, nested list, nested tuple}, every rotation: no graph-node leak, dependencies, position independence, elementwise value"),
     Sub(
         "random",
         check,
